@@ -189,7 +189,7 @@ def judge(am, ref, cfg, S, code, X, oc, rnext, c):
         if S != X:
             return ("bad", "events before the end of the program differ", X)
         return ("ok",)
-    if code == "FAIL":
+    if code == "FAIL" and c != END:
         return ("bad", "machine fails where the procedural reading consumes the symbol", X)
     if S[:len(X)] != X:
         return ("bad", "events up to the consumption of this symbol differ", X)
